@@ -193,3 +193,5 @@ def check(ctx, rep):
     from . import metarules, shared
     _check_main(ctx, rep)
     metarules.recursion_threads_guard(ctx, rep, "C04.REC")
+    from .c01 import w_rule
+    w_rule(ctx, rep, "C04.COW")      # copy-on-write routes write nothing pre-existing, so a failure cannot leave it changed
